@@ -118,7 +118,7 @@ def bind(db, pool, path):
 
 def read_session(db, who, steps):
     from pony import orm
-    step = dict(actor=who, kind='read', t=round(time.time() % 1000, 2))
+    step = dict(actor=who, kind='read')
     try:
         with orm.db_session:
             step['rows'] = sorted(db.select("v from t"))
@@ -129,7 +129,7 @@ def read_session(db, who, steps):
 
 def write_session(db, who, tag, steps, alarm=False):
     from pony import orm
-    step = dict(actor=who, kind='write', tag=tag, t=round(time.time() % 1000, 2))
+    step = dict(actor=who, kind='write', tag=tag)
     def body(tag=tag):
         with orm.db_session:
             db.execute("insert into t (v) values ($tag)")
